@@ -103,3 +103,23 @@ pub fn sparse_ops(out: &mut String, dst: &str, tmp: &str, start: u64, step: u64,
     writeln!(out, "from_lsb0 {} {} hex:{}", tmp, off, h).unwrap();
     writeln!(out, "or ar {} {} {}", dst, dst, tmp).unwrap();
 }
+
+/// values that populate 33..70 tiny chunks (1-3 values each) at consecutive keys starting next to the shared key pool: with
+/// them a value has dozens of containers, so that binary searches, container drains, chunk-count heuristics and cursors that
+/// resume a search are exercised (the shared pool alone never gives more than six chunks)
+pub fn many_chunk_values(r: &mut Rng) -> String {
+    use std::fmt::Write as _;
+    let n = r.range(33, 70);
+    let k0 = *r.pick(&[3u64, 8, 0xFFFE - n]);
+    let mut s = String::new();
+    for i in 0..n {
+        if r.chance(1, 10) {
+            continue; // a hole in the key sequence
+        }
+        let k = k0 + i;
+        for _ in 0..r.range(1, 3) {
+            write!(s, " {}", (k << 16) + *r.pick(&[0u64, 1, 63, 64, 4095, 65535])).unwrap();
+        }
+    }
+    s
+}
